@@ -242,6 +242,8 @@ Lemma avr_map_Sr l : forallb avr (map Sr l) = true.
 Proof. induction l; auto. Qed.
 Lemma avr_map_id l : forallb avr (map id_ l) = true.
 Proof. induction l; auto. Qed.
+Lemma avr_map_ref l : forallb avr (map (fun r => Sr (ref_text r)) l) = true.
+Proof. induction l; auto. Qed.
 
 (* "match x with Some e => avr e | None => true end" for the optional keyword values *)
 Definition mo (x:option pyexpr) : bool := match x with Some e => avr e | None => true end.
@@ -318,7 +320,7 @@ Lemma avr_constraint c k e : render_constraint c k = Some e -> avr e = true.
 Proof.
   destruct k as [cols n|cols refs n ou od i d ua m|cols n d i|s n]; cbn [render_constraint].
   - destruct cols as [|c0 cols]; [discriminate|]. remember (c0 :: cols) as cc. intros [= <-]. rewrite avr_call, forallb_app, avr_map_id. kw_solve. apply mo_opt_name.
-  - intros [= <-]. rewrite avr_call. cbn [app forallb]. rewrite ?forallb_app, !avr_list, avr_map_id, avr_map_Sr. cbn [andb]. kw_solve. apply mo_opt_name.
+  - intros [= <-]. rewrite avr_call. cbn [app forallb]. rewrite ?forallb_app, !avr_list, avr_map_id, avr_map_ref. cbn [andb]. kw_solve. apply mo_opt_name.
   - intros [= <-]. rewrite avr_call, forallb_app, avr_map_id. kw_solve. apply mo_opt_name.
   - intros [= <-]. rewrite avr_call. cbn [app forallb]. rewrite ?forallb_app, avr_Sr. cbn [andb]. kw_solve. apply mo_opt_name.
 Qed.
@@ -574,9 +576,9 @@ Qed.
 Lemma rt_tri_str t : tri_arg as_str (tri_v Sr t) = Some t.
 Proof. destruct t; reflexivity. Qed.
 
-Lemma rt_column c x : can_column c x = true -> eval_column c (render_column c x) = Some x.
+Lemma rt_column c x : can_column c x = true -> eval_column c (render_column c x) = Some (nk_col x).
 Proof.
-  destruct x as [name ty dflt ai nu sy cm]. unfold can_column. cbn [c_name c_type c_default c_comment].
+  destruct x as [name ty dflt ai nu sy cm ky]. unfold can_column, nk_col. cbn [c_name c_type c_default c_comment].
   intros H. repeat (apply andb_true_iff in H; destruct H as [H ?]).
   unfold eval_column, render_column. cbn [c_name c_type c_default c_autoinc c_nullable c_system c_comment sa_call].
   rewrite str_eqb_refl. cbn [obind]. lit_cmp. cbn [negb].
@@ -602,7 +604,9 @@ Proof. induction l; auto. Qed.
 Lemma no_kw_app a b : no_kw (a ++ b) = no_kw a && no_kw b.
 Proof. apply forallb_app. Qed.
 
-Lemma rt_constraint c k e : can_tcons k = true -> render_constraint c k = Some e -> eval_constraint c e = Some k.
+Lemma rt_refs l : mapM as_str (map (fun r => Sr (ref_text r)) l) = Some (map ref_text l).
+Proof. induction l as [|r l IH]; [reflexivity|]. cbn [map mapM as_str Sr obind]. rewrite IH. reflexivity. Qed.
+Lemma rt_constraint c k e : can_tcons k = true -> render_constraint c k = Some e -> eval_constraint c e = Some (nk_cons k).
 Proof.
   destruct k as [cols n|cols refs n ou od i d ua m|cols n d i|s n]; cbn [render_constraint can_tcons]; intros H.
   - destruct cols as [|c0 cols]; [discriminate|]. remember (c0 :: cols) as cc.
@@ -614,8 +618,8 @@ Proof.
   - repeat (apply andb_true_iff in H; destruct H as [H ?]).
     intros [= <-]. unfold eval_constraint. cbn [sa_call]. rewrite str_eqb_refl. cbn [obind app].
     kw_eval. rewrite rt_opt_name by assumption. cbn [obind]. lit_cmp. pos_eval. cbn [obind as_list].
-    rewrite rt_ids, rt_strs by assumption. cbn [obind].
-    rewrite !rt_opt_s_truthy by assumption. cbn [obind]. rewrite rt_opt_b. cbn [obind].
+    rewrite rt_ids, rt_refs by assumption. cbn [obind].
+    rewrite !rt_opt_s_truthy by assumption. cbn [obind]. rewrite rt_opt_b. cbn [obind nk_cons]. unfold nk_ref. rewrite map_map.
     destruct ua; reflexivity.
   - repeat (apply andb_true_iff in H; destruct H as [H ?]).
     intros [= <-]. unfold eval_constraint. cbn [sa_call]. rewrite str_eqb_refl. cbn [obind].
@@ -637,10 +641,10 @@ Proof.
     unfold is_column_call; cbn [sa_call]; rewrite str_eqb_refl; lit_cmp; auto.
 Qed.
 
-Lemma rt_columns c l : forallb (can_column c) l = true -> mapM (eval_column c) (map (render_column c) l) = Some l.
+Lemma rt_columns c l : forallb (can_column c) l = true -> mapM (eval_column c) (map (render_column c) l) = Some (map nk_col l).
 Proof. induction l as [|x r IH]; [reflexivity|]. cbn [forallb map mapM]. intros H. apply andb_true_iff in H. destruct H as [H1 H2].
   rewrite rt_column by assumption. cbn [obind]. rewrite IH by assumption. reflexivity. Qed.
-Lemma rt_constraints c l : forallb can_tcons l = true -> mapM (eval_constraint c) (somes (map (render_constraint c) l)) = Some l.
+Lemma rt_constraints c l : forallb can_tcons l = true -> mapM (eval_constraint c) (somes (map (render_constraint c) l)) = Some (map nk_cons l).
 Proof. induction l as [|k r IH]; [reflexivity|]. cbn [forallb map]. intros H. apply andb_true_iff in H. destruct H as [H1 H2].
   destruct (render_constraint_some c k H1) as [e E]. rewrite E. cbn [somes mapM]. rewrite (rt_constraint c k e H1 E). cbn [obind].
   rewrite IH by assumption. reflexivity. Qed.
@@ -661,7 +665,9 @@ Proof. induction l as [|k r IH]; [reflexivity|]. cbn [map somes]. destruct (rend
   cbn [somes no_kw forallb]. destruct (is_column_call_constraint _ _ _ E) as [_ ->]. exact IH. Qed.
 
 
-Lemma rt_create_table c t : can_table c t = true -> eval_create_table c (match render_create_table c t with PCall _ a => a | _ => [] end) = Some t.
+Lemma rt_create_table c t : can_table c t = true ->
+  eval_create_table c (match render_create_table c t with PCall _ a => a | _ => [] end)
+  = Some (mkTable (t_name t) (t_schema t) (map nk_col (t_cols t)) (map nk_cons (t_cons t)) (t_comment t) (t_prefixes t) (t_if_not_exists t)).
 Proof.
   destruct t as [name schema cols cons comment prefixes ine]. unfold can_table. cbn [t_name t_schema t_cols t_cons t_comment].
   intros H. repeat (apply andb_true_iff in H; destruct H as [H ?]).
@@ -678,9 +684,9 @@ Proof.
   destruct prefixes as [|p ps]; [reflexivity|]. cbn [as_list]. rewrite rt_strs. reflexivity.
 Qed.
 
-Lemma rt_ixexprs c l : forallb can_ixexpr l = true -> mapM (as_ixexpr c) (map (render_ixexpr c) l) = Some l.
+Lemma rt_ixexprs c l : forallb can_ixexpr l = true -> mapM (as_ixexpr c) (map (render_ixexpr c) l) = Some (map nk_ix l).
 Proof.
-  induction l as [|[i|s] r IH]; [reflexivity| |]; cbn [forallb map mapM can_ixexpr render_ixexpr]; intros H.
+  induction l as [|[i ky|s] r IH]; [reflexivity| |]; cbn [forallb map mapM can_ixexpr render_ixexpr nk_ix]; intros H.
   - apply andb_true_iff in H. destruct H as [H1 H2]. destruct i as [s [q|]]; [discriminate|]. cbn [as_ixexpr id_ Sr i_s obind].
     rewrite IH by assumption. reflexivity.
   - cbn [as_ixexpr Sr]. rewrite str_eqb_refl. lit_cmp. cbn [andb obind]. rewrite IH by assumption. reflexivity.
@@ -702,7 +708,7 @@ Ltac hyps H := repeat (apply andb_true_iff in H; let H' := fresh "H" in destruct
 (* the table-level operations: non-batch *)
 Lemma rt_tbl_op_plain c tn s o btn bs : can_tbl_op c tn s o = true ->
   match render_tbl_op c false tn s o with
-  | PCall [p; f] args => p = cfg_op c /\ eval_tbl_op c false btn bs f args = Some (tn, s, o)
+  | PCall [p; f] args => p = cfg_op c /\ eval_tbl_op c false btn bs f args = Some (tn, s, nk_tbl_op o)
   | _ => False
   end.
 Proof.
@@ -753,7 +759,7 @@ Qed.
 (* the table-level operations inside a batch_alter_table block *)
 Lemma rt_tbl_op_batch c tn s o : can_tbl_op c tn s o = true ->
   match render_tbl_op c true tn s o with
-  | PCall [p; f] args => p = lit "batch_op" /\ eval_tbl_op c true tn s f args = Some (tn, s, o)
+  | PCall [p; f] args => p = lit "batch_op" /\ eval_tbl_op c true tn s f args = Some (tn, s, nk_tbl_op o)
   | _ => False
   end.
 Proof.
@@ -816,7 +822,7 @@ Proof.
 Qed.
 
 Lemma eval_top_plain c tn s o : can_tbl_op c tn s o = true ->
-  eval_stmt c (SExpr (render_tbl_op c false tn s o)) = Some (TOp tn s o).
+  eval_stmt c (SExpr (render_tbl_op c false tn s o)) = Some (TOp tn s (nk_tbl_op o)).
 Proof.
   intros H. pose proof (rt_tbl_op_plain c tn s o dummy_id None H) as R. pose proof (render_tbl_op_name c false tn s o) as Nm.
   destruct (render_tbl_op c false tn s o) as [path args| | | | | | |]; try contradiction.
@@ -826,9 +832,9 @@ Qed.
 
 Lemma eval_members_plain c l : forallb (fun m => can_tbl_op c (fst (fst m)) (snd (fst m)) (snd m)) l = true ->
   mapM (eval_stmt c) (map (fun x => SExpr (render_tbl_op c false (fst (fst x)) (snd (fst x)) (snd x))) l)
-  = Some (map (fun x => TOp (fst (fst x)) (snd (fst x)) (snd x)) l).
+  = Some (map (fun x => TOp (fst (fst x)) (snd (fst x)) (snd x)) (map nk_member l)).
 Proof.
-  induction l as [|m r IH]; [reflexivity|]. cbn [forallb map mapM]. intros H. apply andb_true_iff in H. destruct H as [H1 H2].
+  induction l as [|m r IH]; [reflexivity|]. cbn [forallb map mapM nk_member fst snd]. intros H. apply andb_true_iff in H. destruct H as [H1 H2].
   rewrite eval_top_plain by assumption. cbn [obind]. rewrite IH by assumption. reflexivity.
 Qed.
 
@@ -845,9 +851,9 @@ Lemma eval_members_batch c tn s l :
   mapM (fun e => match e with
                  | PCall [p'; f'] a => if str_eqb p' (lit "batch_op") then eval_tbl_op c true tn s f' a else None
                  | _ => None end)
-       (map (fun x => render_tbl_op c true (fst (fst x)) (snd (fst x)) (snd x)) l) = Some l.
+       (map (fun x => render_tbl_op c true (fst (fst x)) (snd (fst x)) (snd x)) l) = Some (map nk_member l).
 Proof.
-  intros H E Ht Hs. induction l as [|[[tn' s'] o] r IH]; [reflexivity|]. cbn [forallb map mapM fst snd] in *.
+  intros H E Ht Hs. induction l as [|[[tn' s'] o] r IH]; [reflexivity|]. cbn [forallb map mapM fst snd nk_member] in *.
   apply andb_true_iff in H, E. destruct H as [H1 H2], E as [E1 E2]. apply andb_true_iff in E1. destruct E1 as [Ea Eb].
   assert (tn' = tn).
   { apply ident_eqb_eq; auto. unfold can_tbl_op in H1. apply andb_true_iff in H1. destruct H1 as [H1 _]. apply andb_true_iff in H1. tauto. }
@@ -861,6 +867,12 @@ Proof.
   destruct path as [|p [|f [|? ?]]]; try contradiction. destruct R as [-> R].
   rewrite str_eqb_refl, R. cbn [obind]. rewrite IH by assumption. reflexivity.
 Qed.
+
+Lemma expected_modify c tn s m l :
+  expected_top c (TModify tn s (m :: l)) =
+  if cfg_batch c then [TModify tn s (map nk_member (m :: l))]
+  else map (fun x => TOp (fst (fst x)) (snd (fst x)) (snd x)) (map nk_member (m :: l)).
+Proof. reflexivity. Qed.
 
 Theorem eval_render c ops : canonical (c, ops) = true -> eval_stmts c (render_ops c ops) = Some (expected c ops).
 Proof.
@@ -879,7 +891,7 @@ Proof.
     rewrite rt_opt_b. reflexivity.
   - cbn [mapM]. rewrite eval_top_plain by assumption. reflexivity.
   - rewrite !andb_true_iff in Ho. destruct Ho as [[[A1 A2] A3] A4].
-    destruct l as [|m l]; [reflexivity|]. remember (m :: l) as ms.
+    destruct l as [|m l]; [reflexivity|]. rewrite expected_modify. remember (m :: l) as ms.
     destruct (cfg_batch c) eqn:B.
     + cbn [negb orb] in A4.
       cbn [mapM eval_stmt]. lit_cmp. rewrite str_eqb_refl. cbn [andb negb app].
@@ -931,15 +943,17 @@ Proof. unfold ixkw_eqb. rewrite !ostr_eqb_refl, obool_eqb_refl. reflexivity. Qed
 Lemma sdefault_eqb_refl d : sdefault_eqb d d = true.
 Proof. destruct d; cbn; rewrite ?str_eqb_refl; try reflexivity; [apply option_eqb_refl, bool_eqb_refl|apply identity_eqb_refl]. Qed.
 Lemma column_eqb_refl x : column_eqb x x = true.
-Proof. unfold column_eqb. rewrite ident_eqb_refl, tytok_eqb_refl, obool_eqb_refl, !bool_eqb_refl, ostr_eqb_refl.
+Proof. unfold column_eqb. rewrite ident_eqb_refl, tytok_eqb_refl, obool_eqb_refl, !bool_eqb_refl, !ostr_eqb_refl.
   rewrite option_eqb_refl by apply sdefault_eqb_refl. reflexivity. Qed.
+Lemma refcol_eqb_refl r : refcol_eqb r r = true.
+Proof. unfold refcol_eqb. rewrite str_eqb_refl, ostr_eqb_refl. reflexivity. Qed.
 Lemma tcons_eqb_refl k : tcons_eqb k k = true.
-Proof. destruct k; cbn; rewrite ?idents_eqb_refl, ?strs_eqb_refl, ?cname_eqb_refl, ?ostr_eqb_refl, ?obool_eqb_refl, ?bool_eqb_refl, ?str_eqb_refl; reflexivity. Qed.
+Proof. destruct k; cbn; rewrite ?(list_eqb_refl refcol_eqb) by apply refcol_eqb_refl; rewrite ?idents_eqb_refl, ?strs_eqb_refl, ?cname_eqb_refl, ?ostr_eqb_refl, ?obool_eqb_refl, ?bool_eqb_refl, ?str_eqb_refl; reflexivity. Qed.
 Lemma table_eqb_refl t : table_eqb t t = true.
 Proof. unfold table_eqb. rewrite ident_eqb_refl, oident_eqb_refl, ostr_eqb_refl, strs_eqb_refl, obool_eqb_refl.
   rewrite !list_eqb_refl by (first [apply column_eqb_refl | apply tcons_eqb_refl]). reflexivity. Qed.
 Lemma ixexpr_eqb_refl x : ixexpr_eqb x x = true.
-Proof. destruct x; cbn; [apply ident_eqb_refl|apply str_eqb_refl]. Qed.
+Proof. destruct x; cbn; [rewrite ident_eqb_refl; apply ostr_eqb_refl|apply str_eqb_refl]. Qed.
 Lemma tri_eqb_refl {A} (e:A -> A -> bool) t : (forall a, e a a = true) -> tri_eqb e t t = true.
 Proof. intros H. destruct t; cbn; auto. Qed.
 Lemma altercol_eqb_refl a : altercol_eqb a a = true.
@@ -961,18 +975,19 @@ Lemma ops_eqb_refl l : ops_eqb l l = true.
 Proof. apply list_eqb_refl, top_op_eqb_refl. Qed.
 
 Theorem decider_sound i o : check_C08 i o = true -> C08_holds i o.
-Proof. unfold check_C08, C08_holds. destruct (o_parsed o) as [st|]; [|discriminate]. intros H. apply andb_true_iff in H. destruct H as [H1 H2].
-  split; [exists st; reflexivity|]. split; assumption. Qed.
+Proof. unfold check_C08, C08_holds. destruct (o_parsed o) as [st|] eqn:E; [|discriminate]. intros H. rewrite !andb_true_iff in H. destruct H as [[H1 H2] H3].
+  split; [exists st; reflexivity|]. repeat split; assumption. Qed.
 
 Theorem decider_complete i o : C08_holds i o -> check_C08 i o = true.
-Proof. unfold check_C08, C08_holds. intros [[st ->] [H1 H2]]. rewrite H1, H2. reflexivity. Qed.
+Proof. unfold check_C08, C08_holds. intros [[st E] [H1 [H2 H3]]]. rewrite E, H1, H2, H3. reflexivity. Qed.
 
 Theorem model_holds i : inclass_C08 i = true -> C08_holds i (model_C08 i).
 Proof.
-  destruct i as [c ops]. unfold inclass_C08. intros H. apply andb_true_iff in H. destruct H as [H _].
-  unfold C08_holds, model_C08, exec_names_ok. cbn [o_parsed o_sql_same o_exec fst snd]. split; [eexists; reflexivity|].
-  rewrite (eval_render c ops H). split; [apply ops_eqb_refl|].
-  unfold names_agree. apply list_eqb_refl. intros x. unfold key_eqb. rewrite N.eqb_refl, str_eqb_refl. reflexivity.
+  destruct i as [c ops]. unfold inclass_C08. intros H. apply andb_true_iff in H. destruct H as [H _]. apply andb_true_iff in H. destruct H as [H F].
+  unfold C08_holds, model_C08, exec_names_ok. cbn [o_parsed o_sql_same o_exec fst snd] in *. split; [eexists; reflexivity|].
+  unfold reads_back. cbn [o_parsed fst snd]. rewrite (eval_render c ops H). split; [rewrite ops_eqb_refl, F; reflexivity|]. split.
+  - unfold names_agree. apply list_eqb_refl. intros x. unfold key_eqb. rewrite N.eqb_refl, str_eqb_refl. reflexivity.
+  - rewrite ops_eqb_refl. apply orb_true_r.
 Qed.
 
 (* ================================================================ part 5: tokens separated by arbitrary whitespace
@@ -1110,6 +1125,8 @@ Lemma wfe_or_none_s x : wf_ostr x = true -> wfe (or_none Sr x) = true. Proof. de
 Lemma wfe_or_none_i x : wf_oid x = true -> wfe (or_none id_ x) = true. Proof. destruct x; cbn [or_none wf_oid]; [rewrite wfe_id|]; auto. Qed.
 Lemma wfe_map_Sr l : forallb wfe (map Sr l) = forallb valid_strb l.
 Proof. induction l as [|a r IH]; [reflexivity|]. cbn [map forallb]. rewrite wfe_Sr, IH. reflexivity. Qed.
+Lemma wfe_map_ref l : forallb wfe (map (fun r => Sr (ref_text r)) l) = forallb (fun r => valid_strb (ref_text r)) l.
+Proof. induction l as [|a r IH]; [reflexivity|]. cbn [map forallb]. rewrite wfe_Sr, IH. reflexivity. Qed.
 Lemma wfe_map_id l : forallb wfe (map id_ l) = forallb wf_id l.
 Proof. induction l as [|a r IH]; [reflexivity|]. cbn [map forallb]. rewrite wfe_id, IH. reflexivity. Qed.
 
@@ -1209,7 +1226,7 @@ Section WF.
       kww. apply mw_opt_name. assumption.
     - rewrite !andb_true_iff in H. destruct H as [[[[[[H1 H2] H3] H4] H5] H6] H7].
       intros [= <-]. rewrite wfe_call. cbn [forallb app]. lit_ok. rewrite Hsa. cbn [andb].
-      rewrite !wfe_list, wfe_map_id, wfe_map_Sr, H1, H2. cbn [andb]. kww. apply mw_opt_name. assumption.
+      rewrite !wfe_list, wfe_map_id, wfe_map_ref, H1, H2. cbn [andb]. kww. apply mw_opt_name. assumption.
     - rewrite !andb_true_iff in H. destruct H as [[H1 H2] H3].
       intros [= <-]. rewrite wfe_call. cbn [forallb]. lit_ok. rewrite Hsa. cbn [andb]. rewrite forallb_app, wfe_map_id, H1. cbn [andb].
       kww. apply mw_opt_name. assumption.
